@@ -42,7 +42,7 @@ IsErr(v) == v.k = "err"
 BoxOps  == {"val", "items0", "items1", "items2", "plus1", "me_val", "boom", "nope", "tmo", "gboom", "uval", "uplus2"}   \* u...: names with a leading underscore
 CntOps  == {"bump", "count"}
 IterOps == {"next"}
-ListOps == {"iter", "item0", "count11"}
+ListOps == {"iter", "item0", "count11", "sortnone"}
 OpsOf(kind) == CASE kind = "box" -> BoxOps [] kind = "cnt" -> CntOps [] kind = "iter" -> IterOps [] kind = "list" -> ListOps
 AllOps == BoxOps \cup CntOps \cup IterOps \cup ListOps
 
@@ -65,6 +65,7 @@ NewObj(kind) == CASE kind = "box"  -> [k |-> "box", n |-> 3]
                   [] kind = "list" -> [k |-> "list", n |-> 0]
                   [] kind = "iter" -> [k |-> "iter", n |-> 0]
 
+NoneVal == -7          \* stands for Python's None in answers
 \* the meaning of one chained operation on an object: <<value, object afterwards, new object or NoObj>>
 Apply(o, op) ==
   CASE o.k = "box" /\ op = "val"    -> <<I(o.n), o, NoObj>>
@@ -83,6 +84,7 @@ Apply(o, op) ==
     [] o.k = "iter" /\ op = "next"  -> IF o.n < L THEN <<I(Src(o.n + 1)), [o EXCEPT !.n = @ + 1], NoObj>>
                                                   ELSE <<Err("StopIteration"), o, NoObj>>
     [] o.k = "list" /\ op = "iter"  -> <<NoResp, o, [k |-> "iter", n |-> 0]>>     \* answered with a reference
+    [] o.k = "list" /\ op = "sortnone" -> <<I(NoneVal), o, NoObj>>        \* list.sort(): evaluated on the server, the answer is None
     [] o.k = "list" /\ op = "item0" -> IF L > 0 THEN <<I(Src(1)), o, NoObj>> ELSE <<Err("IndexError"), o, NoObj>>
     [] o.k = "list" /\ op = "count11" -> <<I(IF L >= 1 THEN 1 ELSE 0), o, NoObj>>
     [] OTHER                        -> <<Err("AttributeError"), o, NoObj>>
